@@ -126,6 +126,10 @@ func runC17(c *Ctx) {
 									okNil = true
 								}
 							}
+							// … or by the generated nil-safe getter of the same field on the same object
+							if gc, ok := bo.X.(*ssa.Call); ok && len(gc.Call.Args) == 1 && gc.Call.Args[0] == fa.X && flow.IsFieldLoad(gc, tcpbPkg, "Policy", "TdQuoteBodyPolicy") {
+								okNil = true
+							}
 						}
 					}
 					c.S.Check(okNil, "R2", construct, c.pos(st.Pos()), "body policy allocated only when absent", "an existing TdQuoteBodyPolicy is replaced")
@@ -300,6 +304,8 @@ func runC17(c *Ctx) {
 			}
 			return 0, false
 		}
+		// decisions computed into a record first and applied later (update.setGuestPolicy / setMeasurement) are cells
+		recordBoolCells(c, r, 2, "gcetcbendorsement")
 		r.Match = func(in ssa.Instruction) []esp.Ev {
 			if n, ok := isPolicyStore(in, "Policy", "Measurement"); ok {
 				nst++
@@ -422,7 +428,8 @@ func runC17(c *Ctx) {
 		r := &esp.Rule{Name: "C17.R3tdx"}
 		r.Relevant = func(f *ssa.Function) bool { return relevant[f] && load.RelPkg(f) == "gcetcbendorsement" }
 		r.Flag = func(v ssa.Value) (int, bool) {
-			if u, ok := v.(*ssa.UnOp); ok && u.Op == token.MUL {
+			_, isCall := v.(*ssa.Call) // the generated nil-safe getters read the same fields
+			if u, ok := v.(*ssa.UnOp); (ok && u.Op == token.MUL) || isCall {
 				switch {
 				case flow.IsFieldLoad(v, gcePkg, "TdxPolicyOptions", "Overwrite"):
 					return 0, true
@@ -544,20 +551,30 @@ func (c *Ctx) pemBlockProvenance(sl *flow.Slicer, elem ssa.Value, b *ssa.BasicBl
 	// the decode call the element comes from, and the helper call (if any) through which it was returned
 	var decode *ssa.Call
 	var via *ssa.Call
+	var vias []*ssa.Call
 	lsl.Visit(elem, func(v ssa.Value) bool {
 		if isPemDecode(v) {
 			decode = v.(*ssa.Call)
 			return false
 		}
-		if call, ok := v.(*ssa.Call); ok && via == nil {
+		if call, ok := v.(*ssa.Call); ok {
 			if g := call.Call.StaticCallee(); g != nil && load.FuncInRepo(g) && g.Blocks != nil && !flow.IsProtoGetter(g) {
-				via = call
+				if via == nil {
+					via = call
+				}
+				vias = append(vias, call)
 			}
 		}
 		return true
 	}, nil)
 	if decode == nil {
 		return false, false
+	}
+	// the call through which the decoding helper's results arrived (the walk may have passed other functions first)
+	for _, vc := range vias {
+		if vc.Call.StaticCallee() == decode.Parent() {
+			via = vc
+		}
 	}
 	src = lsl.Derives(decode.Call.Args[0], fromBundle)
 	if decode.Parent() == b.Parent() {
@@ -572,6 +589,14 @@ func (c *Ctx) pemBlockProvenance(sl *flow.Slicer, elem ssa.Value, b *ssa.BasicBl
 	okHelper := true
 	nret := 0
 	ei := errIndex(h.Signature)
+	// which result of the helper carries the value
+	carry := -1
+	lsl.Visit(elem, func(v ssa.Value) bool {
+		if ex, ok := v.(*ssa.Extract); ok && ex.Tuple == ssa.Value(via) && carry < 0 {
+			carry = ex.Index
+		}
+		return true
+	}, nil)
 	for _, hb := range h.Blocks {
 		ret, ok := hb.Instrs[len(hb.Instrs)-1].(*ssa.Return)
 		if !ok || ei < 0 {
@@ -580,13 +605,67 @@ func (c *Ctx) pemBlockProvenance(sl *flow.Slicer, elem ssa.Value, b *ssa.BasicBl
 		if k, isK := ret.Results[ei].(*ssa.Const); !isK || !k.IsNil() {
 			continue // error return
 		}
+		if carry >= 0 && carry < len(ret.Results) {
+			if k, isK := ret.Results[carry].(*ssa.Const); isK && k.IsNil() {
+				continue // nothing is handed out through this result on this return
+			}
+		}
 		nret++
-		if !typeChecked(hb, decode) {
-			okHelper = false
+		// every block this return hands out through the carrying result has had its type checked
+		decs := []*ssa.Call{decode}
+		if carry >= 0 && carry < len(ret.Results) {
+			decs = nil
+			hsl := flow.NewSlicer(c.P)
+			hsl.Transparent = sl.Transparent
+			hsl.Visit(ret.Results[carry], func(v ssa.Value) bool {
+				if isPemDecode(v) {
+					decs = append(decs, v.(*ssa.Call))
+					return false
+				}
+				return true
+			}, nil)
+			if len(decs) == 0 {
+				decs = []*ssa.Call{decode}
+			}
+		}
+		for _, d := range decs {
+			if d.Parent() != h || !typeChecked(hb, d) {
+				okHelper = false
+			}
 		}
 	}
 	if ei < 0 || nret == 0 || !okHelper || via.Call.StaticCallee() != h {
 		return src, false
+	}
+	// the value may be parked in a record by the function that called the helper and appended elsewhere (update()
+	// computes, applyTo() writes): then that function hands the record out only behind the nil edge of the helper's error
+	if via.Parent() != b.Parent() {
+		vf := via.Parent()
+		okOut, nOut := true, 0
+		for _, vb := range vf.Blocks {
+			ret, ok := vb.Instrs[len(vb.Instrs)-1].(*ssa.Return)
+			if !ok || len(ret.Results) == 0 {
+				continue
+			}
+			if k, isK := ret.Results[0].(*ssa.Const); isK && k.IsNil() {
+				continue
+			}
+			nOut++
+			behind := false
+			for _, cf := range dominatingConds(vb) {
+				bo, ok := cf.Cond.(*ssa.BinOp)
+				if !ok || (bo.Op != token.NEQ && bo.Op != token.EQL) || !isNilK(bo.Y) {
+					continue
+				}
+				if ex, ok := bo.X.(*ssa.Extract); ok && ex.Tuple == ssa.Value(via) && ex.Index == ei && (bo.Op == token.EQL) == cf.Val {
+					behind = true
+				}
+			}
+			if !behind {
+				okOut = false
+			}
+		}
+		return src, okOut && nOut > 0
 	}
 	// caller side: the append's block is dominated by the nil edge of the helper call's error
 	for _, cf := range dominatingConds(b) {
